@@ -19,6 +19,9 @@ C36  Fortran-to-Python transpilation preserves behaviour.
  R5  zero-based shifting keeps every component of a section: in
      ``shift_to_zero_indexing`` a rebuilt ``RangeIndex`` carries start, stop and
      step of the original (a dropped step turns a(2:n:2) into a[1:n]).
+ R6  the shift is by exactly one: in ``shift_to_zero_indexing`` the new start of
+     a section and a scalar subscript are, as linear forms, ``<old> - 1`` and the
+     stop is unchanged (Python's exclusive end).
 Not decided: intrinsic mapping, array semantics, kinds.
 """
 import ast
@@ -182,9 +185,43 @@ def run(ctx):
                               f'the shifted section is rebuilt as RangeIndex(({", ".join(parts)})): a component of the original section is '
                               f'dropped (a(2:n:2) becomes a[1:n], every element instead of every second one)', instance=inst)
     ctx.floor('R5', 'RangeIndex rebuilds in shift_to_zero_indexing', n5, 1)
+    # ---- R6
+    from sa.linform import lin_py, same, show, NotLinear
+    ctx.rule('R6', 'shift_to_zero_indexing: new start == old start - 1, new scalar subscript == old - 1, stop unchanged (linear forms)')
+    n6 = 0
+    for c_ in ast.walk(sz.node):
+        if isinstance(c_, ast.BinOp) and isinstance(c_.op, (ast.Add, ast.Sub)) and not any(
+                isinstance(p_, ast.BinOp) and c_ in (p_.left, p_.right) for p_ in ast.walk(sz.node)):
+            try:
+                got = lin_py(c_)
+            except NotLinear:
+                continue
+            atoms = [k for k in got if k != 1]
+            if len(atoms) != 1:
+                continue
+            n6 += 1
+            inst = f'shift_to_zero_indexing:{ast.unparse(c_)}'
+            if got[atoms[0]] == 1 and got.get(1, 0) == -1:
+                ctx.judge('R6', inst, facts={'normal_form': show(got)})
+            else:
+                ctx.violation('R6', 'shift_to_zero_indexing:shift-by-one', f'{sz.module.relpath}:{c_.lineno}',
+                              f'`{ast.unparse(c_)}` is `{show(got)}`: a 1-based subscript becomes 0-based by subtracting exactly one', instance=inst)
+    ctx.floor('R6', 'shift expressions in shift_to_zero_indexing', n6, 2)
+    for c_ in ast.walk(sz.node):
+        if isinstance(c_, ast.Call) and (getattr(c_.func, 'attr', None) == 'RangeIndex') and c_.args and isinstance(c_.args[0], ast.Tuple) \
+                and len(c_.args[0].elts) >= 2:
+            st_ = c_.args[0].elts[1]
+            (ctx.judge('R6', 'stop unchanged') if isinstance(st_, ast.Attribute) and st_.attr in ('stop', 'upper') else
+             ctx.violation('R6', 'shift_to_zero_indexing:stop', f'{sz.module.relpath}:{c_.lineno}',
+                           f'the stop of a shifted section is `{ast.unparse(st_)}`: Python\'s end is exclusive, the 1-based inclusive stop is '
+                           f'already the right 0-based exclusive end'))
 
 
 MUTANTS = [
+    Mutant('zero-shift-by-two', 'loki/transformations/array_indexing/array_indices.py', "                        new_dims += [d - sym.Literal(1)]",
+           "                        new_dims += [d - sym.Literal(2)]", expect=('R6', 'shift-by-one')),
+    Mutant('zero-shift-stop-too', 'loki/transformations/array_indexing/array_indices.py', "new_dims += [sym.RangeIndex((start, d.stop, d.step))]",
+           "new_dims += [sym.RangeIndex((start, d.stop - sym.Literal(1), d.step))]", expect=('R6', 'stop')),
     Mutant('range-end-plus-stride', PY, "cntrl = f'range({start}, {end} + (1 if {incr} > 0 else -1), {incr})'", "cntrl = f'range({start}, {end} + {incr}, {incr})'",
            expect=('R4', 'range-stop')),
     Mutant('range-sign-from-spelling', PY, "            cntrl = f'range({start}, {end} + (1 if {incr} > 0 else -1), {incr})'",
